@@ -54,17 +54,26 @@ def _rel(f, op, pa, pb):
 def r17_4b(ctx):
     F = ctx.F
     b = ctx.method(SOCK, 'process')
-    L = [i for i, l in enumerate(b.locals) if l.get('name') == 'segment_in_window']
-    ctx.need(len(L) == 1, "local `segment_in_window` in tcp::Socket::process")
-    L = L[0]
-    sites = []
+    # the acceptability flag: the bool local with the most constant-`true` stores that lie behind a comparison of the
+    # segment's sequence numbers with the receive window (identified by shape, not by its name)
+    seqwin = lambda f: f[0] == 'rel' and ((_is_seg_start(f[2]) or _is_seg_end(f[2]) or _is_win_start(f[2]) or _is_win_end(f[2])) and
+                                           (_is_seg_start(f[3]) or _is_seg_end(f[3]) or _is_win_start(f[3]) or _is_win_end(f[3])))
+    ge_sw = guard_edges(F, b, seqwin)
+    behind = set()
+    for (bi, tb, lab) in ge_sw:
+        behind |= set(b.reachable(start=tb))
+    cand = {}
     for bi, bl in enumerate(b.blocks):
         if bl['cl']:
             continue
         for si, s in enumerate(bl['s']):
-            if s[0] == 'a' and s[1] == [L, []] and s[2][0] == 'use' and s[2][1][0] == 'k' and s[2][1][2] is True:
-                sites.append(bi)
-    ctx.need(len(sites) >= 3, f"`segment_in_window = true` sites (found {len(sites)})")
+            if s[0] == 'a' and s[1][1] == [] and b.locals[s[1][0]]['ty'] == 'bool' and s[2][0] == 'use' and s[2][1][0] == 'k' and s[2][1][2] is True \
+                    and bi in behind:
+                cand.setdefault(s[1][0], []).append(bi)
+    ctx.need(cand, "a bool flag set to true behind sequence/window comparisons in tcp::Socket::process")
+    L = max(cand, key=lambda l: len(cand[l]))
+    sites = cand[L]
+    ctx.need(len(sites) >= 3, f"`in window = true` sites (found {len(sites)})")
     pred = p_any(lambda f: _rel(f, 'Eq', _is_win_start, _is_seg_start),
                  lambda f: _rel(f, 'Lt', _is_seg_start, _is_win_end),
                  lambda f: _rel(f, 'Le', _is_seg_end, _is_win_end))
@@ -161,8 +170,7 @@ def r05_6(ctx):
 def r05_7(ctx):
     F = ctx.F
     b = ctx.method(REPR, 'parse')
-    L = [i for i, l in enumerate(b.locals) if l.get('name') == 'window_scale']
-    ctx.need(L, "local `window_scale` in tcp::Repr::parse")
+    L = []        # identified by type and by what flows into it (the WindowScale option payload), not by name
     n = 0
     for bi, bl in enumerate(b.blocks):
         if bl['cl']:
@@ -565,8 +573,6 @@ def r05_4b(ctx):
     d = ctx.method(SOCK, 'dispatch')
     ga = [x for x in d.calls() if (d.callee_name(x[1]) or '').endswith('RingBuffer::<\'a, T>::get_allocated')]
     ctx.need(len(ga) >= 2, "tx_buffer.get_allocated call sites in dispatch")
-    L = [i for i, l in enumerate(d.locals) if l.get('name') == 'offset' and l.get('ty') == 'usize']
-    ctx.need(L, "local `offset` in tcp::Socket::dispatch")
     gablocks = {x[0] for x in ga}
     n = 0
     for x in ga:
